@@ -140,18 +140,18 @@ class C11(Check):
         m = 128 if tier == 'thorough' else 48
         sl = 4 if tier == 'thorough' else 3      # slice cube on every (sequence, order, mode) up to this length
         nl = 4 if tier == 'thorough' else 3      # numbering classes alt, wrap, same up to this length
-        # (for the numbering classes other than seq the all-orders slice cube stops at length 3)
+        sl2 = 3 if tier == 'thorough' else 2     # same, for the numbering classes other than seq
         self.bounds = {'sequence_len_max': lmax, 'species': 4, 'solvent': 'W (never loaded)',
                        'numberings': list(NUMBERINGS), 'loading_orders': 'all permutations',
                        'modes': ['ctor', 'add'], 'slice_values': '{None,-2,-1,0,1,2,n}^3, step != 0',
-                       'slice_cube_all_orders_up_to_len': {'seq': sl, 'alt/wrap/same': 3},
+                       'slice_cube_all_orders_up_to_len': {'seq': sl, 'alt/wrap/same': sl2},
                        'slice_cube_one_order_beyond': 'full cube up to length 5; at length 6 step in {None,-1,2}',
                        'oracle_after_each_add_ftop': 'iteration, len, composition; final state: + every index, slices',
                        'numbering_alt_wrap_same_up_to_len': nl,
                        'refused_topologies': 'numbering seq only; absent species, absent kind sequence, '
                                              'different atom names; before and after loading the real species '
                                              '(after only, for sequences longer than 4)'}
-        return [{'lmax': lmax, 'mod': m, 'r': r, 'sl': sl, 'nl': nl} for r in range(m)]
+        return [{'lmax': lmax, 'mod': m, 'r': r, 'sl': sl, 'sl2': sl2, 'nl': nl} for r in range(m)]
 
     def cases(self, unit, tier, seed):
         i = 0
@@ -162,7 +162,7 @@ class C11(Check):
                         continue
                     i += 1
                     if i % unit['mod'] == unit['r']:
-                        yield {'seq': list(seq), 'num': num, 'sl': unit['sl'] if num == 'seq' else 3}
+                        yield {'seq': list(seq), 'num': num, 'sl': unit['sl'] if num == 'seq' else unit['sl2']}
 
     # ------------------------------------------------------------------
     def check_case(self, case, R, seed):
